@@ -12,9 +12,9 @@ PROP = dict(
     ],
     stub_notes=[],
     harnesses=[
-        H(ND, "c40", "c40_sample", "Ok => size == 40, magic, pulse == 0, offset/leap are the wire fields, offset finite; Err => one of the four reasons holds and the error names the first", timeout=300),
-        H(ND, "c40", "c40_recv_error", "a failed receive is rejected", timeout=300),
-        H(ND, "c40", "c40_conv", "sender_ts = time - from_seconds(offset): no panic, measured offset reproduced, sign kept, saturation", timeout=300),
-        H(ND, "c40", "c40_sample_kf_nonfinite_offset", "EXPECTED TO FAIL (finding): a datagram with NaN/+-inf offset is accepted", timeout=420),
+        H(ND, "c40", "c40_sample", "Ok => size == 40, magic, pulse == 0, offset/leap are the wire fields, offset finite; Err => one of the four reasons holds and the error names the first", timeout=600),
+        H(ND, "c40", "c40_recv_error", "a failed receive is rejected", timeout=600),
+        H(ND, "c40", "c40_conv", "sender_ts = time - from_seconds(offset): no panic, measured offset reproduced, sign kept, saturation", timeout=600),
+        H(ND, "c40", "c40_sample_kf_nonfinite_offset", "EXPECTED TO FAIL (finding): a datagram with NaN/+-inf offset is accepted", timeout=600),
     ],
 )
